@@ -8,7 +8,8 @@ function raises on input j (an Exception, or a BaseException that is not an
 Exception); two consecutive imap_unordered on one pool; abandon, leave the
 context, re-enter and run to completion; abandon WITHOUT closing the
 generator, re-enter, and close the stale generator in the middle of the second
-iteration (what garbage collection does).
+iteration (what garbage collection does); two pools alive at the same time
+and consumed in lock step by one thread.
 Oracle: completion => Counter(results) == Counter(f(x)) and termination; no
 reachable state is a deadlock (all live participants parked, none enabled) in
 any scenario, including the failing function; after the context is left every
@@ -35,9 +36,9 @@ from vlib.core import Inconclusive, Stage
 
 ID = "C13"
 LEVEL = "exploration"
-RULE = ("schedules: T in 1..4, n in 0..2T+5 biased to T-1,T,T+1,2T+1,2T+2,"
+RULE = ("schedules: T in 1..4 (4% of the cases 5..72), n in 0..2T+5 biased to T-1,T,T+1,2T+1,2T+2,"
         "2T+3, scenario in {complete, abandon@k, fail@j, twice, "
-        "abandon-then-reuse}, up to 400 scheduler choices (then a fair "
+        "abandon-then-reuse, stale-close, two pools in lock step}, up to 400 scheduler choices (then a fair "
         "policy). Non-trivial: >= 2 context switches between different "
         "workers while results are pending, or any abandon/fail scenario. "
         "Distinct by (T, n, scenario, parameters, hash of the executed "
@@ -52,7 +53,7 @@ ASSUMPTIONS = [
 ]
 
 SCENARIOS = ["complete", "abandon", "fail", "fail_base", "twice",
-             "abandon_reuse", "stale_close"]
+             "abandon_reuse", "stale_close", "two_pools"]
 
 
 class Boom(Exception):
@@ -85,7 +86,12 @@ def st_n(t):
 
 @st.composite
 def strategy_schedules(draw, tier):
-    t = draw(st.integers(1, 4))
+    # mostly small pools (all interleavings matter there), sometimes a wide
+    # one: "for all thread counts T"
+    if draw(st.integers(0, 24)) == 0:
+        t = draw(st.integers(5, 72))
+    else:
+        t = draw(st.integers(1, 4))
     n = draw(st_n(t))
     scenario = draw(st.sampled_from(SCENARIOS))
     k = draw(st.integers(0, max(n, 1)))
@@ -97,6 +103,7 @@ def strategy_schedules(draw, tier):
         "scenario": scenario,
         "k": k,
         "n2": n2,
+        "t2": draw(st.integers(1, 2)),
         "choices": choices
     }
 
@@ -131,6 +138,24 @@ def drive(case, pool_cls, ctx_fail, sleeps=None):
             out2 = list(p.imap_unordered(wrap(f_tag), range(100, 100 + n2)))
         check_multiset(ctx_fail, out, n, "twice/first", case)
         check_multiset(ctx_fail, out2, n2, "twice/second", case, base=100)
+    elif scenario == "two_pools":
+        # two pools alive at the same time, consumed in lock step by one
+        # thread (e.g. a training and a validation stream); the shorter one
+        # ends while the other is in the middle of its iteration
+        pool2 = pool_cls(case.get("t2", 1))
+        with pool as p, pool2 as q:
+            a = iter(p.imap_unordered(wrap(f_tag), range(n)))
+            b = iter(q.imap_unordered(wrap(f_tag), range(100, 100 + n2)))
+            out, out2 = [], []
+            live = [[a, out], [b, out2]]
+            while live:
+                for pair in list(live):
+                    try:
+                        pair[1].append(next(pair[0]))
+                    except StopIteration:
+                        live.remove(pair)
+        check_multiset(ctx_fail, out, n, "two-pools/first", case)
+        check_multiset(ctx_fail, out2, n2, "two-pools/second", case, base=100)
     elif scenario in ("abandon", "abandon_reuse"):
         with pool as p:
             it = iter(p.imap_unordered(wrap(f_tag), range(n)))
@@ -265,12 +290,14 @@ def run_schedules(case, ctx):
     except sched.UnsupportedPrimitive as exc:
         ctx.label("unsupported-primitive")
         raise Inconclusive(str(exc)) from exc
-    ctx.label("scenario=" + case["scenario"], f"T={case['t']}")
+    ctx.label("scenario=" + case["scenario"],
+              f"T={case['t']}" if case["t"] <= 4 else "T=5..72")
     ctx.count("scheduling_points", len(s.trace))
     if s.timeouts_fired:
         ctx.label("timeouts-fired")
     if s.worker_switches() >= 2 or case["scenario"] in (
-            "abandon", "fail", "fail_base", "abandon_reuse", "stale_close"):
+            "abandon", "fail", "fail_base", "abandon_reuse", "stale_close",
+            "two_pools"):
         h = hashlib.blake2b("|".join(s.trace).encode(),
                             digest_size=6).hexdigest()
         ctx.nontrivial([
@@ -296,7 +323,9 @@ def enumerate_dfs(tier):
                         "scenario": scenario,
                         "k": k,
                         "n2": 2 if scenario in ("twice", "abandon_reuse",
-                                                "stale_close") else 0,
+                                                "stale_close",
+                                                "two_pools") else 0,
+                        "t2": 1,
                         "bound": 1 if tier == "quick" else 2,
                         "budget": 3000 if tier == "quick" else 50000,
                     })
